@@ -120,8 +120,18 @@ def main():
                 pre = ""
                 if concurrent:
                     if r.random() < cfg.get("bogus_prob", 0.0):
-                        bid = r.randrange(1000000, 2000000000)
-                        pre += "%d %s\n" % (bid, bogus_reply(payload, "bogus"))
+                        # an unknown channel: a huge number, channel 0 (never assigned while it was not seen in a request),
+                        # or a reply whose channel-ID field is missing altogether (squid reads that as channel 0)
+                        k = r.random()
+                        if k < 0.5:
+                            bid = r.randrange(1000000, 2000000000)
+                            pre += "%d %s\n" % (bid, bogus_reply(payload, "bogus"))
+                        elif k < 0.75 and 0 not in state.get("seen_ids", ()):
+                            bid = 0
+                            pre += "0 %s\n" % bogus_reply(payload, "bogus")
+                        else:
+                            bid = -1
+                            pre += " %s\n" % bogus_reply(payload, "bogus")
                         recs.append({"ev": "bogus", "id": bid})
                     if state["answered"] and r.random() < cfg.get("dup_prob", 0.0):
                         did = r.choice(state["answered"])
@@ -218,6 +228,7 @@ def main():
                 if sub in payload:
                     lat = float(secs)     # directed scenarios: exact latency for payloads containing this substring
             rep = reply_for(payload)
+            state.setdefault("seen_ids", set()).add(chan)
             log(ev="req", id=chan, payload=payload, latency=round(lat, 4))
             with cv:
                 state["seq"] += 1
